@@ -5,6 +5,9 @@ from .framework import run_check
 
 # property id -> "module:Class" (module relative to the harness package)
 PROPS = {
+    "C17": "props_rechunk:C17",
+    "C10": "props_scan:C10",
+    "C18": "props_quantile:C18",
     "C01": "props_reduce:C01",
     "C02": "props_reduce:C02",
     "C03": "props_reduce:C03",
